@@ -30,6 +30,7 @@ type c06World struct {
 	hub    *recHub
 	parent string // service token with policy c06
 	limTok string // use-limited token (num_uses 5)
+	batchTok string // non-orphan batch token, child of parent
 }
 
 func c06Opts(hub *recHub, transactional bool) coreOpts {
@@ -55,6 +56,11 @@ func newC06World(t *testing.T, transactional bool) *c06World {
 	w.limTok, _, r = tc.createToken(tc.root, map[string]any{"policies": []string{"default", "c06"}, "ttl": "1h", "num_uses": 50})
 	if w.limTok == "" {
 		t.Fatalf("harness: %v", r)
+	}
+	// a non-orphan batch token: its leases are indexed under (and die with) its parent
+	w.batchTok, _, r = tc.createToken(w.parent, map[string]any{"policies": []string{"default", "c06"}, "ttl": "30m", "type": "batch"})
+	if w.batchTok == "" {
+		t.Fatalf("harness: batch token: %v", r)
 	}
 	// a child namespace with its own mount at the same path (rb/) as the root namespace
 	tc.mustOK(tc.req(logical.UpdateOperation, "sys/namespaces/ns1", tc.root, nil), "namespace")
@@ -87,10 +93,10 @@ func (w *c06World) fork() *c06World {
 	w.hub.mu.Lock()
 	w.hub.misrouted = nil
 	w.hub.mu.Unlock()
-	return &c06World{t: w.t, tc: n, hub: w.hub, parent: w.parent, limTok: w.limTok, ns1: w.ns1, nsTok: w.nsTok}
+	return &c06World{t: w.t, tc: n, hub: w.hub, parent: w.parent, limTok: w.limTok, batchTok: w.batchTok, ns1: w.ns1, nsTok: w.nsTok}
 }
 
-var c06Kinds = []string{"secret", "secret-in-namespace", "secret-wrapped", "secret-uselimited", "login", "login-wrapped", "create", "create-role", "create-orphan", "create-wrapped"}
+var c06Kinds = []string{"secret", "secret-batch-child", "secret-in-namespace", "secret-wrapped", "secret-uselimited", "login", "login-wrapped", "create", "create-role", "create-orphan", "create-wrapped"}
 
 func (w *c06World) request(kind string) rr { return w.requestCtx(kind, w.tc.ctx) }
 
@@ -104,6 +110,8 @@ func (w *c06World) requestCtx(kind string, base context.Context) rr {
 	switch kind {
 	case "secret":
 		return tc.do(&logical.Request{Operation: logical.ReadOperation, Path: "rb/creds/a", ClientToken: w.parent})
+	case "secret-batch-child":
+		return tc.do(&logical.Request{Operation: logical.ReadOperation, Path: "rb/creds/a", ClientToken: w.batchTok})
 	case "secret-in-namespace":
 		return tc.doCtx(namespace.ContextWithNamespace(base, w.ns1), &logical.Request{Operation: logical.ReadOperation, Path: "rb/creds/a", ClientToken: w.nsTok})
 	case "secret-wrapped":
@@ -453,7 +461,7 @@ func c06RunKind(t *testing.T, rt *rapid.T, rec *verifx.Recorder, txn bool, kind 
 				rec.Violation(rt, "crash-prefix-unbootable", map[string]any{"request": kind, "k": k}, "core does not start on the store after %d of %d writes of %s: %v", k, nMut, kind, err)
 				continue
 			}
-			w := &c06World{t: t, tc: n, hub: newRecHub(), parent: base.parent, limTok: base.limTok}
+			w := &c06World{t: t, tc: n, hub: newRecHub(), parent: base.parent, limTok: base.limTok, batchTok: base.batchTok}
 			func() {
 				defer func() { w.tc.shutdown() }()
 				detail := map[string]any{"request": kind, "crash_after_writes": k, "of_writes": nMut, "last_write": dryRec.MutationKeys(mut0 + k - 1), "transactional": txn}
@@ -512,6 +520,10 @@ func c06Outcome(w *c06World, kind string, r rr) (string, string) {
 			return "secret-without-lease", fmt.Sprintf("client received a secret with lease id %s but no lease record exists", resp.Secret.LeaseID)
 		}
 		te, err := w.tc.c.tokenStore.Lookup(ctx, le.ClientToken)
+		if err == nil && te != nil && te.Type == logical.TokenTypeBatch && te.Parent != "" {
+			// the lease of a non-orphan batch token is indexed under its parent
+			te, err = w.tc.c.tokenStore.Lookup(ctx, te.Parent)
+		}
 		if err == nil && te != nil {
 			ids, _ := exp.lookupLeasesByToken(ctx, te)
 			found := false
